@@ -9,23 +9,17 @@
 //! occupied hint returns, and whether `mprotect` fails are the model's decisions.
 #![allow(non_camel_case_types, non_upper_case_globals)]
 
-pub type c_void = core::ffi::c_void;
-pub type c_int = i32;
-pub type c_long = i64;
-pub type size_t = usize;
-pub type off_t = i64;
+// every constant and type of the real crate (so that a tree that starts using another flag or
+// errno value still builds here); the memory-management *functions* below shadow the real ones
+pub use reallibc::*;
 
-pub const PROT_NONE: c_int = 0;
-pub const PROT_READ: c_int = 1;
-pub const PROT_WRITE: c_int = 2;
-pub const PROT_EXEC: c_int = 4;
-pub const MAP_PRIVATE: c_int = 0x02;
-pub const MAP_FIXED: c_int = 0x10;
-pub const MAP_ANONYMOUS: c_int = 0x20;
-pub const MAP_ANON: c_int = 0x20;
+/// macOS-only flag the crate names under cfg(target_os = "macos") (the macOS variants are compiled
+/// on this host with the cfg rewritten)
 pub const MAP_JIT: c_int = 0x800;
-pub const MAP_FAILED: *mut c_void = !0usize as *mut c_void;
-pub const _SC_PAGESIZE: c_int = 30;
+
+fn set_errno(e: c_int) {
+    unsafe { *reallibc::__errno_location() = e };
+}
 
 pub unsafe fn mmap(addr: *mut c_void, len: size_t, prot: c_int, flags: c_int, fd: c_int, off: off_t) -> *mut c_void {
     model::with(|m| m.mmap(addr as u64, len, prot, flags, fd, off)) as *mut c_void
@@ -94,6 +88,8 @@ pub mod model {
         pub log: Vec<Ev>,
         pub double_unmaps: u64,
         pub foreign_unmaps: u64,
+        /// MAP_FIXED mappings placed over memory the library did not own
+        pub clobbered: u64,
         pub calls: u64,
     }
 
@@ -138,6 +134,7 @@ pub mod model {
                 log: Vec::new(),
                 double_unmaps: 0,
                 foreign_unmaps: 0,
+                clobbered: 0,
                 calls: 0,
             }
         }
@@ -179,14 +176,27 @@ pub mod model {
             FAILED
         }
 
-        pub fn mmap(&mut self, hint: u64, len: usize, prot: i32, _flags: i32, _fd: i32, _off: i64) -> u64 {
+        pub fn mmap(&mut self, hint: u64, len: usize, prot: i32, flags: i32, _fd: i32, _off: i64) -> u64 {
             self.calls += 1;
             // Linux rounds an unaligned hint down to a page boundary (calibrated by vnative
             // against the running kernel; the model follows it).
             let p = hint & !(self.page - 1);
+            let noreplace = flags & 0x100000 != 0;
+            let fixed = flags & 0x10 != 0;
             let ret = if len == 0 || len as u64 > self.page {
+                super::set_errno(super::ENOMEM);
                 FAILED
             } else if hint != 0 && p != 0 && self.page_free(p) {
+                self.grant(p, len)
+            } else if noreplace {
+                // MAP_FIXED_NOREPLACE: an occupied address is refused, never relocated
+                super::set_errno(super::EEXIST);
+                FAILED
+            } else if fixed && hint != 0 && self.in_region(p) && hint % self.page == 0 {
+                // MAP_FIXED replaces whatever is there
+                if !self.live.contains_key(&p) {
+                    self.clobbered += 1;
+                }
                 self.grant(p, len)
             } else {
                 match self.fallback {
